@@ -27,6 +27,7 @@ import Apko.Proofs.Lemmas.FormatsCodec
 import Apko.Proofs.Lemmas.FormatsIdbTotal
 import Apko.Proofs.Lemmas.FormatsSortComplete
 import Apko.Proofs.Lemmas.FormatsSortNodup
+import Apko.Proofs.Lemmas.FormatsNoPanic
 
 namespace Apko.C16
 open Apko Apko.Formats
@@ -460,5 +461,16 @@ theorem sortTarHeaders_perm (hs : List FileRec) (ht : treeOK hs = true) (hn : na
   sortHeaders_perm hs (treeOK_spec hs ht) hn
 
 example : namesNodup sampleFiles = true := by decide
+
+/-! ## the readers are total -/
+
+/-- `ParseInstalled`, as it is today (`tie_idbGuarded`), panics on no input; `ParsePackageIndex` neither -/
+theorem readers_no_panic (c : Codec) (t : Text) :
+    parseInstalled c idbCases idbGuarded t ≠ .oob ∧ parseIndex c indexCases t ≠ .oob := by
+  rw [tie_idbGuarded]
+  exact ⟨parseInstalled_no_panic c idbCases t, parseIndex_no_panic c indexCases t⟩
+
+/-- without the guard a one-byte line indexes out of range (F15a, repaired) -/
+theorem unguarded_panics : parseInstalled idCodec [] false "x\n".toList = .oob := by decide
 
 end Apko.C16
